@@ -17,10 +17,10 @@ func init() {
 	run.Register(&run.Prop{
 		ID:    "C12",
 		Title: "Aspect-preserving viewBox placement fits or fills and honours alignment",
-		Rule:  "cases are PRNG-chosen (viewBox, target size, alignment) tuples with sizes log-uniform over 1e-4..1e6 plus a fixed boundary list; a case is non-trivial when the target aspect differs from the viewBox aspect by more than 1% (meet and slice then differ); distinctness by hash of the argument bits",
+		Rule:  "cases are PRNG-chosen (viewBox, target size, alignment) tuples with sizes log-uniform over 1e-4..1e6 (two in three) or with box and target magnitudes anywhere in 1e-25..1e28 (one in three), plus a fixed boundary list; a case is non-trivial when the target aspect differs from the viewBox aspect by more than 1% (meet and slice then differ); distinctness by hash of the argument bits",
 		Assumptions: []string{
 			"float32 rounding allowance: sizes within 1e-5 relative, positions within 1e-5 of max(target, size) per dimension",
-			"viewBox width/height and target sizes finite, positive, ratios representable in float32 (1e-4..1e6)",
+			"viewBox width/height and target sizes finite, positive; aspect ratios within 1e-10..1e10 (1e-7..1e7 for the wide-magnitude cases) so that every correct result is a finite float32",
 		},
 		Subs: []*run.Sub{
 			{
@@ -42,7 +42,7 @@ func init() {
 				},
 				Run:  c12Random,
 				Rule: "log-uniform sizes over ten decades, origins anywhere, alignments {0,.5,1} or uniform; 1/5 square boxes, 1/7 equal aspect, 1/11 aspect equal up to 1 ulp",
-				Min:  map[string]int64{"meet_width_limited": 1000, "meet_height_limited": 1000, "align_interior": 1000, "equal_aspect": 1000},
+				Min:  map[string]int64{"meet_width_limited": 1000, "meet_height_limited": 1000, "align_interior": 1000, "equal_aspect": 1000, "wide_magnitudes": 100000, "cross_product_outside_float32": 10000},
 			},
 		},
 	})
@@ -83,6 +83,47 @@ func c12Boundary() []c12Case {
 func c12Random(c *run.Ctx, idx uint64) {
 	r := c.Rng(idx)
 	lu := func() float64 { return r.LogUniform(1e-4, 1e6) }
+	// One case in three takes the box and the target from anywhere in the
+	// float32 range (each with its own magnitude, the aspect ratios within
+	// 1e-6..1e6 so that every correct result is representable): products such
+	// as dx*height then leave the float32 range although every quotient the
+	// computation needs is an ordinary number.
+	wide := r.Chance(1, 3)
+	if wide {
+		mv, mt := r.LogUniform(1e-25, 1e28), r.LogUniform(1e-25, 1e28)
+		lv := func() float64 { return mv * r.LogUniform(1e-3, 1e3) }
+		lt := func() float64 { return mt * r.LogUniform(1e-3, 1e3) }
+		w, h := lv(), lv()
+		ox, oy := 0.0, 0.0
+		if r.Bool() {
+			ox, oy = r.Uniform(-1, 1)*mv, r.Uniform(-1, 1)*mv
+		}
+		vb := ivg.ViewBox{MinX: float32(ox), MinY: float32(oy), MaxX: float32(ox + w), MaxY: float32(oy + h)}
+		sw, sh := vb.MaxX-vb.MinX, vb.MaxY-vb.MinY
+		if !(sw > 0 && sh > 0) || float64(sw)/float64(sh) > 1e7 || float64(sw)/float64(sh) < 1e-7 {
+			c.Count("skipped_degenerate_box", 1)
+			return
+		}
+		dx, dy := float32(lt()), float32(lt())
+		if r.Chance(1, 6) {
+			dy = float32(float64(dx) * float64(sh) / float64(sw))
+		}
+		if !(dx > 0 && dy > 0) || math.IsInf(float64(dy), 0) {
+			return
+		}
+		c.Count("wide_magnitudes", 1)
+		if p := dx * sh; p == 0 || math.IsInf(float64(p), 0) {
+			c.Count("cross_product_outside_float32", 1)
+		} else if p := dy * sw; p == 0 || math.IsInf(float64(p), 0) {
+			c.Count("cross_product_outside_float32", 1)
+		}
+		ax, ay := float32(r.F64()), float32(r.F64())
+		if r.Bool() {
+			ax, ay = float32(r.Pick(0, 1, 2))/2, float32(r.Pick(0, 1, 2))/2
+		}
+		c12Check(c, vb, dx, dy, ax, ay)
+		return
+	}
 	w, h := lu(), lu()
 	ox, oy := r.Uniform(-1, 1)*lu(), r.Uniform(-1, 1)*lu()
 	vb := ivg.ViewBox{MinX: float32(ox), MinY: float32(oy), MaxX: float32(ox + w), MaxY: float32(oy + h)}
